@@ -633,6 +633,10 @@ impl Hypercore {
             self.flush_bitfield_and_tree_and_oplog(true).await?;
             Ok(true)
         } else {
+            // An earlier call may have been interrupted between its two header writes: the
+            // core then opens read-only from the newer slot while the other slot still holds
+            // the previous header, secret key included. Rewrite both slots here as well.
+            self.flush_bitfield_and_tree_and_oplog(true).await?;
             Ok(false)
         }
     }
